@@ -15,7 +15,7 @@ RULE = (
     "distinct = distinct (per-request type, handler kind, tuple of duplicate timing classes, endpoint relation) shapes"
 )
 ASSUMPTIONS = ["EXCHANGE_LIFETIME and EMPTY_ACK_DELAY are read from the library's default TransportTuning at run time"]
-REQUIRED_MONITORS = {"epoch_once": 300, "dup_con_reanswer": 200, "dup_non_silent": 50, "after_lifetime_new": 30, "same_mid_other_endpoint": 50, "mid_collision": 4}
+REQUIRED_MONITORS = {"epoch_once": 300, "dup_con_reanswer": 200, "dup_non_silent": 50, "after_lifetime_new": 30, "same_mid_other_endpoint": 50, "mid_collision": 4, "transport_error_between_copies": 100}
 
 KINDS = ["fast", "slow", "fail", "noresp", "notfound"]
 OFFS = {
@@ -58,6 +58,11 @@ def gen_history(r, EL):
             variant = r.choice(["copy", "copy", "copy", "other-token"])
             spec["dups"].append({"cls": cls, "off": off + r.choice([0.0, 0.00011, 0.00023]), "variant": variant})
         hist.append(spec)
+    # transport errors (ICMP) reported for a peer somewhere in the history: they must not make the server forget
+    # which (endpoint, MID) pairs it has seen
+    if r.random() < 0.35:
+        t_end = max(s["t"] for s in hist) + 2.0
+        hist[0]["errors"] = [{"t": r.choice([0.05, 0.5, 1.2, r.uniform(0.0, t_end)]), "peer": r.randrange(npeers)} for _ in range(r.choice([1, 2]))]
     return peers[:npeers], hist
 
 
@@ -117,6 +122,8 @@ def run_history(peers, hist, seed, rep, case, EL):
             for d in spec["dups"]:
                 events.append((spec["t"] + d["off"], spec, d["variant"], False))
         events.sort(key=lambda e: e[0])
+        for er in hist[0].get("errors", []):
+            net.inject_error(S, raws[er["peer"]].addr, 111, delay=er["t"])
         t_now = 0.0
         for t, spec, variant, first in events:
             if t > t_now:
@@ -213,7 +220,9 @@ def judge(box, hist, peers, res, rep, case, EL):
             rep.violation("new-request-not-executed", "a request with a fresh (endpoint, MID) - or one whose EXCHANGE_LIFETIME had passed - was not passed to the application", wit(key=repr(ep["key"]), t0=ep["t0"]), case)
     if res.loop_exceptions:
         rep.violation("loop-exception/" + str(res.loop_exceptions[0].get("exc_type")), "an exception reached the event loop while duplicates were processed", wit(loop=res.loop_exceptions[:2]), case)
-    shape = tuple((s["type"], s["kind"], tuple(sorted(d["cls"] + ("*" if d["variant"] != "copy" else "") for d in s["dups"])), s["peer"], s["mid"]) for s in hist)
+    shape = tuple((s["type"], s["kind"], tuple(sorted(d["cls"] + ("*" if d["variant"] != "copy" else "") for d in s["dups"])), s["peer"], s["mid"]) for s in hist) + (len(hist[0].get("errors", [])),)
+    if hist[0].get("errors"):
+        rep.monitor("transport_error_between_copies")
     rep.case(shape, nontrivial=judged_dups > 0)
 
 
